@@ -1,7 +1,7 @@
 """C08 - piecewise estimators: a partition by the binner with one local model per bucket."""
 from vf import loader
 from vf.core import Clause, Outcome, Violation, require, with_sk
-from vf.estimators import RecordingRegressor, RecordingClassifier
+from vf.estimators import RecordingRegressor, RecordingClassifier, BiasedClassifier
 
 import numpy as np
 import pandas
@@ -49,6 +49,8 @@ def _estimator(spec, classifier):
     if classifier:
         if k == "logreg":
             return LogisticRegression(C=spec.get("C", 1.0), max_iter=200)
+        if k == "biased":
+            return BiasedClassifier()            # predict is deliberately not the argmax of predict_proba (a moved decision threshold)
         return DecisionTreeClassifier(max_depth=2, random_state=0)
     if k == "linear":
         return LinearRegression()
@@ -349,7 +351,7 @@ def _cases(draw, tier="quick"):
     else:
         binner = dict(kind="kbins", n_bins=draw(st.integers(2, 4)), strategy=draw(st.sampled_from(["uniform", "quantile", "kmeans"])))
     if classifier:
-        ek = draw(st.sampled_from(["recording", "recording", "logreg", "tree"]))
+        ek = draw(st.sampled_from(["recording", "recording", "logreg", "tree", "biased"]))
         lab = draw(st.lists(st.integers(-5, 12), min_size=2, max_size=4, unique=True))
         labels = [draw(st.sampled_from(lab)) for _ in range(50)]
         labels[0], labels[1] = lab[0], lab[1]
